@@ -1,5 +1,5 @@
 """Property -> rule list. Each rule: (id, text, function(ctx, report))."""
-import rules_cmd, rules_expire, rules_conn, rules_auth, rules_tx, rules_db, rules_zset
+import rules_cmd, rules_expire, rules_conn, rules_auth, rules_tx, rules_db, rules_zset, rules_rdb
 from shared import SERVER
 
 
@@ -44,6 +44,29 @@ def _c05():
         ("R-PARSEERR-CLOSE", "the consumer of queued protocol errors pushes an error reply and requests the connection to be closed", rules_conn.rule_parseerr_close),
         ("R-CRLF", "line-framed reply variants write payload bytes only through a CR/LF-inspecting function; bulk strings write len() of the slice they write", rules_conn.rule_crlf),
         ("R-TXNORESP", "nothing reachable from EXEC can yield NoResponse or register a blocked client", rules_conn.rule_txnoresp),
+    ]
+
+
+def _c09():
+    return [
+        ("R-RDB-OPC", "variant -> opcode (both writers) composed with opcode -> constructed variant (reader) is the identity on all six value types; the two writers agree", rules_rdb.rule_opc),
+        ("R-RDB-LEN", "length encoding: encoder class bounds, tags, masks, shifts and byte order are consistent with the decoder's class switch; no silent truncation; scalar byte-order pairs", rules_rdb.rule_len),
+        ("R-RDB-SHAPE", "per variant the sequence of primitive writes (with loop nesting) equals the sequence of primitive reads; expiry prefix mirrored", rules_rdb.rule_shape),
+        ("R-RDB-COUNT", "the element count written is len() of the very collection iterated", rules_rdb.rule_count),
+        ("R-RDB-TYPE", "the loader decides the value type from the opcode only (no comparison of payload bytes with a constant)", rules_rdb.rule_type),
+        ("R-RDB-EXPIRED", "a record carrying an expiry is never loaded as a persistent key", rules_rdb.rule_expired_on_load),
+        ("R-RDB-DB", "loader stores into the database of the last SelectDb record; the writer's selector is the database it reads from", rules_rdb.rule_rdb_db),
+    ]
+
+
+def _c10():
+    return [
+        ("R-SAVE-TMP", "save() writes only a temp path, renames temp->final only on the success continuation of write_snapshot, which returns Ok only after a successful flush; nothing else in the module opens files for writing", rules_rdb.rule_save_tmp),
+        ("R-SAVE-EXCL", "write_snapshot runs under one single-writer guard", rules_rdb.rule_save_excl),
+        ("R-BGSAVE-FLAG", "every exit of the BGSAVE thread (return and unwind) clears bgsave_in_progress", rules_rdb.rule_bgsave_flag),
+        ("R-SNAP-ONE", "per key, value and TTL come from one engine call", rules_rdb.rule_snap_one),
+        ("R-RDB-COUNT", "count and elements of a shared collection come from one materialisation", rules_rdb.rule_count),
+        ("R-LOAD-ERR", "no read-primitive result is discarded in the loader; unknown opcodes are refused; storage results while loading are not dropped", rules_rdb.rule_load_err),
     ]
 
 
@@ -99,6 +122,8 @@ REGISTRY = {
     "C05": _c05,
     "C07": _c07,
     "C08": _c08,
+    "C09": _c09,
+    "C10": _c10,
     "C17": _c17,
     "C18": _c18,
 }
